@@ -1,8 +1,10 @@
 //! `simcheck` — deterministic simulation checks for LSP4SPL.
 //! The server modules below are the repository's own files (symlink farm, see mklinks.sh).
 #![recursion_limit = "512"]
-include!("srv_mods.rs");
+// `h` first: the harness's own thread-locals are real ones (srv_mods.rs brings a `thread_local!`
+// into scope that maps the server's onto simulated threads)
 pub mod h;
+include!("srv_mods.rs");
 
 use h::core::Tier;
 use h::driver::{self, PropDef};
